@@ -11,6 +11,7 @@ import Bptk.Core.PyWire
    are the tokens the real StockExpressions+parseExpression emitted for a stock with nin inflows and nout
    outflows exactly the intended text (`skeletonTextOK`; by `skeletonTextOK_sound` they then parse to the
    skeleton and denote the model's stock code — any nin, nout)?
+`skelnn|<nin>|<nout>|<wire tokens>`  →  the same for a NON-NEGATIVE stock (`skeletonTextNNOK`, initial value `max([0 , 7.5])`)
 elem:  `stock <ex> ; <ins> ; <outs>` | `nnstock <ex> ; <ins> ; <outs>` (non-negative stock) | `gflow <0|1> <ex> ; x:y,…` (flow defined by a gf) | `flow <0|1> <ex>` | `aux <ex>` | `gf <ex> ; x:y,x:y,…`
 ex (prefix words): `L<hex>~<pytext>` `R<n>` `T` `D` `+ a b` `- a b` `* a b` `/ a b` `M a b` `m a b` `?<cmp> a b x y`
 -/
@@ -161,6 +162,10 @@ def handle (line : String) : String :=
   | ["skel", ni, no, toks] =>
     match ni.trimAscii.toString.toNat?, no.trimAscii.toString.toNat?, Bptk.Py.toksOfWords (words toks) with
     | some ni, some no, some ts => if skeletonTextOK ni no ts then "ok" else "diff"
+    | _, _, _ => "bad-op"
+  | ["skelnn", ni, no, toks] =>
+    match ni.trimAscii.toString.toNat?, no.trimAscii.toString.toNat?, Bptk.Py.toksOfWords (words toks) with
+    | some ni, some no, some ts => if skeletonTextNNOK ni no ts then "ok" else "diff"
     | _, _, _ => "bad-op"
   | "chk" :: rest =>
     let elems := rest.takeWhile (· ≠ "#")
